@@ -1,5 +1,5 @@
 //@ unit u_kern
-//@ depends u_graph
+//@ depends u_graph u_cent
 // C05 / C06 / C03 / C20: the single-source kernels of betweenness.rs and closeness.rs: they read exactly the traversal rows,
 // cannot panic, and hand accumulate_betweenness a well-formed result (contract chain kernel -> accumulation).
 #![feature(allocator_api)]
@@ -24,21 +24,7 @@ broadcast use {f64ax::group_f64_axioms, dispax::axiom_display_total, cloneax::ax
 //@ include-assumed adjvec.rs u_graph
 //@ include-assumed graph_fns.rs u_graph
 
-//@ extract struct src/algorithms/centrality/betweenness.rs SingleSourceResults pubfields
-//@ rewrite
-struct SingleSourceResults
-//@ with
-pub struct SingleSourceResults
-//@ end
-
-// the single-source results are well-formed for a graph of n nodes (the precondition of accumulate_betweenness, see u_cent)
-pub open spec fn ssr_wf(r: SingleSourceResults, n: nat) -> bool {
-    &&& r.source < n
-    &&& r.sigma@.len() == n
-    &&& r.P@.len() == n
-    &&& forall|k: int| 0 <= k < r.S@.len() ==> #[trigger] r.S@[k] < n
-    &&& forall|w: int, k: int| 0 <= w < n && 0 <= k < r.P@[w]@.len() ==> #[trigger] r.P@[w]@[k] < n
-}
+//@ include-assumed cent_fns.rs u_cent
 
 //@ extract fn src/algorithms/centrality/betweenness.rs bfs props=C03,C05,C20
 //@ head
@@ -281,6 +267,116 @@ if D[w] == vf64_max() && (seen[w] == vf64_max() || vw_dist < seen[w]) {
                 seen@.len() == graph.n(),
                 sigma@.len() == graph.n(),
                 forall|it: FringeNode| #[trigger] heap_view(&fringe).count(it) > 0 ==> it.v < graph.n() && it.pred < graph.n(),
+//@ end
+
+// ---- the betweenness driver: kernels -> accumulation -> rescale with the graph's own parameters ----
+// R-ext (A5): the rayon expression of the parallel branch, rayon::current_num_threads(), get_all_nodes() and the final
+// enumerate/map/collect into a name-keyed map sit behind local declarations with ASSUMED contracts
+#[verifier::external_body]
+pub fn vrayon_threads() -> usize { unimplemented!() }
+#[verifier::external_body]
+pub fn vpar_single_source_results<T, A>(graph: &Graph<T, A>, weighted: bool) -> (r: Vec<SingleSourceResults>)
+    where T: Hash + Eq + Clone + Ord + Debug + Display + Send + Sync, A: Clone + Send + Sync,
+    requires graph.wf_nodes(), graph.wf_rows(),
+    ensures forall|k: int| 0 <= k < r@.len() ==> ssr_wf(#[trigger] r@[k], graph.n()),
+{ unimplemented!() }
+// the name-keyed result: one entry per node, node i carries b[i]
+pub open spec fn name_map_of<T: Eq + PartialOrd + Send + Sync, A: Clone>(g: Graph<T, A>, b: Seq<f64>, m: Map<T, f64>) -> bool {
+    &&& forall|i: int| 0 <= i < g.n() ==> m.contains_key(#[trigger] g.nodes_vec@[i].name) && m[g.nodes_vec@[i].name] == b[i]
+    &&& forall|k: T| #[trigger] m.contains_key(k) ==> g.knows(k)
+}
+#[verifier::external_body]
+pub fn vvec_to_name_map<T, A>(graph: &Graph<T, A>, b: Vec<f64>) -> (r: HashMap<T, f64>)
+    where T: Hash + Eq + Clone + Ord + Debug + Display + Send + Sync, A: Clone + Send + Sync,
+    requires graph.wf_nodes(), b@.len() == graph.n(),
+    ensures name_map_of(*graph, b@, r@),
+{ unimplemented!() }
+impl<T, A> Graph<T, A>
+where
+    T: Eq + Clone + PartialOrd + Ord + Hash + Send + Sync + Display,
+    A: Clone,
+{
+//@ extract fn src/graph/query.rs get_all_nodes ty=Graph nobody
+//@ head
+    #[verifier::external_body]
+//@ rewrite
+-> Vec<&Arc<Node<T, A>>>
+//@ with
+-> (r: Vec<&Arc<Node<T, A>>>)
+//@ spec
+    ensures r@.len() == self.n(),
+//@ end
+}
+
+// b is b0 with the scaling rule applied to each of its n entries
+pub open spec fn scaled_form(b0: Seq<f64>, b: Seq<f64>, n: usize, normalized: bool, directed: bool) -> bool {
+    &&& b0.len() == n && b.len() == n
+    &&& forall|i: int| 0 <= i < n ==> #[trigger] b[i] == (match get_scale_spec(n, normalized, directed) {
+            Some(s) => fmul(b0[i], s),
+            None => b0[i],
+        })
+}
+
+//@ extract fn src/algorithms/centrality/betweenness.rs betweenness_centrality props=C05,C20
+//@ rewrite
+) -> Result<HashMap<T, f64>, Error>
+//@ with
+) -> (r: Result<HashMap<T, f64>, Error>)
+//@ rewrite
+rayon::current_num_threads()
+//@ with
+vrayon_threads()
+//@ rewrite
+(0..graph.number_of_nodes())
+                .into_par_iter()
+                .map(|source| match weighted {
+                    true => dijkstra(graph, source),
+                    false => bfs(graph, source),
+                })
+                .collect();
+//@ with
+vpar_single_source_results(graph, weighted);
+//@ rewrite
+for r in results
+//@ with
+for r in itr: results
+//@ rewrite
+for source in 0..graph.number_of_nodes()
+//@ with
+for source in its: 0..graph.number_of_nodes()
+//@ rewrite
+    let hm = betweenness
+        .into_iter()
+        .enumerate()
+        .map(|(i, v)| (graph.get_node_by_index(&i).unwrap().name.clone(), v))
+        .collect();
+//@ with
+    let hm = vvec_to_name_map(graph, betweenness);
+//@ spec
+    requires
+        graph.wf_nodes(),
+        graph.wf_rows(),
+    ensures
+        r.is_ok(),
+        // [C05.driver.one_entry_per_node_scaled_with_graph_parameters]
+        // the returned map has exactly one entry per node, holding the accumulated vector scaled by the rule for
+        // (number of nodes, normalized, this graph's directedness)
+        exists|b0: Seq<f64>, b: Seq<f64>| #[trigger] scaled_form(b0, b, graph.n() as usize, normalized, graph.specs.directed) && name_map_of(*graph, b, r.unwrap()@),
+//@ loop 1
+                invariant
+                    graph.wf_nodes(), graph.wf_rows(),
+                    betweenness@.len() == graph.n(),
+                    forall|k: int| 0 <= k < results@.len() ==> ssr_wf(#[trigger] results@[k], graph.n()),
+//@ loop 2
+                invariant
+                    graph.wf_nodes(), graph.wf_rows(),
+                    betweenness@.len() == graph.n(),
+//@ before rescale(
+    let ghost b0 = betweenness@;
+//@ before =let hm = betweenness
+    proof {
+        assert(scaled_form(b0, betweenness@, graph.n() as usize, normalized, graph.specs.directed));
+    }
 //@ end
 
 } // verus!
